@@ -124,14 +124,6 @@ def gkstep (s : GKState) : GKLabel → Option GKState
   | .k2Skip => if s.kpc = .k2 ∧ s.r ≠ -1 then some { s with kpc := .k4 } else none
   | .k3 => if s.kpc = .k3 then some { s with kpc := .k4 } else none
 
-open Lean.Parser.Tactic in
-/-- projection lemma: cases on the local label, unfold the L2 step, discharge -/
-macro "proj_tac" l:ident st:ident "[" ts:simpLemma,* "]" : tactic =>
-  `(tactic| (cases $l:ident <;> simp only [$ts,*] at $st:ident <;> (repeat' split at $st:ident) <;>
-      first
-      | (simp at $st:ident; done)
-      | (simp only [Option.some.injEq] at $st:ident; subst $st:ident; simp_all [upd] <;> grind)))
-
 /-! ## `Handshake/Tso.lean` (memb / mb grace period): the waiter = the grace-period leader -/
 
 namespace Hs
@@ -641,8 +633,8 @@ end Cr
 namespace Df
 open DeferWake
 
-/-- `D`'s labels, decorated: `dDec v` = `uatomic_dec` returned… nothing (no value), `dScanEnd f` = `rcu_defer_num_callbacks()`
-was non-zero (`f`), `dLoad v` = loaded the futex, saw `v` -/
+/-- `D`'s labels, decorated: `dScanEnd f` = the scan ended with `found = f` (`rcu_defer_num_callbacks()` non-zero),
+`dLoad v` = loaded the futex, saw `v` -/
 inductive WLabel
   | dDec | dScanStart | dScanQ (i : Nat) | dScanEnd (f : Bool) | dStore0 | dLoad (v : Int)
   | dWaitSleep | dWaitEagain | dWaitIntr | woken
